@@ -36,7 +36,7 @@ for _p, _t in (('C08', 'Harris-Michael set/map'), ('C09', 'Harris-Michael iterat
     CLAIMED[_p] = dict(
        text='%s: the deciding part so far is a schedule search over the real code (random, PCT, preemption-bounded DFS, prefix sweeps, sequential op sequences; quarantine and reuse allocator modes; several reclaimers) with exact oracles: linearizability of every explored history against the set/map specification, final traversal and lock-free probes, iterator yield rules, use-after-free / double-free / lost-lock detection. The Coq obligations of this property are still placeholders (a monotonicity / positivity lemma); the structural theorems over a list/bucket model are work in progress.' % _t,
        note='Exploration with exact oracles, not a proof: the Coq part does not yet carry the property. SC interleavings only.',
-       technique='schedule search with exact linearizability and memory oracles (Coq model pending)', design='5/' + _p)
+       technique='schedule search with exact linearizability and memory oracles (Coq model pending)', design='5/' + _p, level='exploration')
 NOT_YET = {}
 props = [json.loads(l) for l in open(os.path.join(V, 'properties.jsonl'))]
 checks, na = [], []
@@ -51,7 +51,7 @@ for p in props:
           'evidence_file': 'evidence/%s.json' % pid,
           'replay_cmd_template': 'python3 tools/check.py %s --replay {path}' % pid,
           'engine': 'xv',
-          'level_claimed': {'category': 'proof', 'text': c['text'], 'design_ref': 'DESIGN.md section ' + c['design']},
+          'level_claimed': {'category': c.get('level', 'proof'), 'text': c['text'], 'design_ref': 'DESIGN.md section ' + c['design']},
           'level_note': c['note'],
           'technique': c['technique'],
         })
